@@ -485,12 +485,42 @@ pub fn malformed_program(rng: &mut Rng) -> Case {
     Case { req: format!("c04raw {} {} 2000", toks.join(";"), vars), in_domain: false, nontrivial: false, tags: vec!["malformed-structure"] }
 }
 
+/// a taken `if` branch whose body executes an inner `if … end` block `n` times before the outer
+/// `else` line is reached (every execution leaves an entry on the if call stack): the `else`
+/// must still find the outer block's entry
+pub fn deep_if_stack_case(n: usize, outer_true: bool) -> Case {
+    let e = |s: &str| s.to_string();
+    let mut t: Vec<String> = vec![e("B2")];
+    t.extend(line(Some("h"), "range", &[e("0"), n.to_string()]));
+    t.push(e("I")); t.push(enc_str("if")); t.push(enc_list(&[e(if outer_true { "true" } else { "false" })]));
+    t.push(e("B2"));
+    t.push(e("F")); t.push(enc_str("for")); t.push(enc_str("x")); t.push(enc_str("${h}"));
+    t.push(e("B1"));
+    t.push(e("I")); t.push(enc_str("if")); t.push(enc_list(&[e("true")]));
+    t.push(e("B1")); t.extend(line(Some("n0"), "inc", &[e("${n0}")]));
+    t.push(e("E0")); t.push(e("X-")); t.push(enc_str("end"));
+    t.push(enc_str("end"));
+    t.extend(line(None, "emit", &[e("then-done"), e("${n0}")]));
+    t.push(e("E0"));
+    t.push(format!("X{}", enc_str("else")));
+    t.push(e("B1")); t.extend(line(None, "emit", &[e("else-ran")]));
+    t.push(enc_str("end"));
+    let vars = format!("{}={}", enc_str("n0"), enc_str("0"));
+    Case { req: format!("c04 {} {} 400000", t.join(";"), vars), in_domain: true, nontrivial: true, tags: vec!["deep-call-stack", "if", "for"] }
+}
+
 impl Prop for C04Prop {
     fn id(&self) -> &'static str {
         "C04"
     }
     fn fixed_cases(&self, _tier: Tier) -> Vec<Case> {
-        keyword_probes()
+        let mut out = keyword_probes();
+        // thresholds: 40 / 300 / 1100 / 2100 entries above the outer block's entry
+        for n in [40usize, 300, 1100, 2100] {
+            out.push(deep_if_stack_case(n, true));
+        }
+        out.push(deep_if_stack_case(1100, false));
+        out
     }
     fn rule(&self) -> &'static str {
         "random well-nested program trees (depth <= 4, <= ~60 lines): if/elseif/else chains (0-2 elseif, optional else), counter-driven while loops (0-3 iterations, incl. zero), for-in over array/range handles (0-3 elements), straight-line set/inc/emit commands; every keyword spelled by a random alias or the full command name, blocks closed by the generic 'end' or the specific end command; conditions as values, boolean expressions with groups, commands (equals, lt) and negated commands/values; random truthy/falsy initial flags. The Lean specification flattens the tree to script text and runs the tree-walking interpreter (oracle); the real interpreter runs the same text. Observed: emit trace with argument values, final variables (handles canonicalised). Non-trivial = nesting depth >= 2 and at least one loop; distinct = distinct request."
